@@ -15,15 +15,28 @@ import (
 // After each announce(origin) and a full drain, every node connected to the origin must
 // hold each of the origin's routes with LastUpdate >= the announce instant.
 
+// vpC14Tolerated counts refresh failures that carry the signature of the listed finding
+// replay-sequence-ahead (the stored copy has a sequence number the origin never issued).
+var vpC14Tolerated int
+
 func vpC14CheckRefresh(s *vpSim, o int, at time.Time) string {
+	return vpC14CheckRefreshTol(s, o, at, false)
+}
+
+func vpC14CheckRefreshTol(s *vpSim, o int, at time.Time, tolerateAhead bool) string {
 	d := s.dist(o)
 	want := s.originated(o)
+	issued := s.nodes[o].mgr.GetCurrentSequence()
 	for i := range s.nodes {
 		if i == o || d[i] < 0 {
 			continue
 		}
 		got := map[string]vpLearned{}
+		maxSeq := map[string]uint64{}
 		for _, r := range s.learned(i, o) {
+			if r.seq > maxSeq[r.key] {
+				maxSeq[r.key] = r.seq
+			}
 			// the presence table keeps one entry per next hop: the freshest one counts
 			if old, ok := got[r.key]; !ok || r.updated.After(old.updated) {
 				got[r.key] = r
@@ -35,6 +48,12 @@ func vpC14CheckRefresh(s *vpSim, o int, at time.Time) string {
 				return fmt.Sprintf("after announce(%d) node %d (distance %d) does not hold %s", o, i, d[i], k)
 			}
 			if r.updated.Before(at) {
+				// signature of the listed finding: the node holds a copy (over some next hop)
+				// stamped with a number the origin never issued
+				if tolerateAhead && maxSeq[k] > issued {
+					vpC14Tolerated++
+					continue
+				}
 				return fmt.Sprintf("announce(%d) did not refresh %s at node %d (distance %d): stored copy has sequence %d and was last updated %v before the announcement", o, k, i, d[i], r.seq, at.Sub(r.updated))
 			}
 		}
@@ -42,7 +61,39 @@ func vpC14CheckRefresh(s *vpSim, o int, at time.Time) string {
 	return ""
 }
 
+// vpC14CheckDelivered demands that an announcement of origin o with a sequence number in
+// (lo, hi] was delivered to every node connected to o. An announcement whose number was
+// already delivered to some node before it was issued (a replay stamped with the same
+// number: listed finding C12 replay-sequence-collision) is not judged.
+func vpC14CheckDelivered(s *vpSim, o int, lo, hi uint64, before map[string]int) (string, bool) {
+	for q := lo + 1; q <= hi; q++ {
+		for i := range s.nodes {
+			if before[fmt.Sprintf("node %d origin %d seq %d", i, o, q)] > 0 {
+				return "", true
+			}
+		}
+	}
+	d := s.dist(o)
+	for i := range s.nodes {
+		if i == o || d[i] < 0 {
+			continue
+		}
+		got := 0
+		for q := lo + 1; q <= hi; q++ {
+			got += s.gotAt[fmt.Sprintf("node %d origin %d seq %d", i, o, q)]
+		}
+		if got == 0 {
+			return fmt.Sprintf("announce(%d) (sequence %d..%d) never reached node %d although it is connected to the origin (distance %d)", o, lo+1, hi, i, d[i]), false
+		}
+	}
+	return "", false
+}
+
 func vpC14Run(t *rapid.T, st *vp.Stats, lateConnects bool) {
+	vpC14RunTol(t, st, lateConnects, false)
+}
+
+func vpC14RunTol(t *rapid.T, st *vp.Stats, lateConnects, tolerateAhead bool) {
 	n := rapid.IntRange(3, 6).Draw(t, "n")
 	edges, shape := vpGenGraph(t, n)
 	s, _ := vpNewSim(n, 0)
@@ -75,19 +126,42 @@ func vpC14Run(t *rapid.T, st *vp.Stats, lateConnects bool) {
 			t.Fatalf("VPFAIL C14 no quiescence: %s", s.history())
 		}
 	}
-	announces := 0
+	announces, collisions := 0, 0
 	t.Repeat(map[string]func(*rapid.T){
 		"announce": func(t *rapid.T) {
 			o := rapid.IntRange(0, n-1).Draw(t, "origin")
 			time.Sleep(50 * time.Microsecond)
 			at := time.Now()
+			before := map[string]int{}
+			for k, v := range s.gotAt {
+				before[k] = v
+			}
+			lo := s.nodes[o].mgr.GetCurrentSequence()
 			s.announce(o)
+			hi := s.nodes[o].mgr.GetCurrentSequence()
 			if !s.drain(20000) {
 				t.Fatalf("VPFAIL C14 no quiescence: %s", s.history())
 			}
 			announces++
-			if msg := vpC14CheckRefresh(s, o, at); msg != "" {
+			msg, collided := vpC14CheckDelivered(s, o, lo, hi, before)
+			if collided {
+				// the announcement's number was already used by a replay some node saw:
+				// listed finding C12 replay-sequence-collision; with it listed here as well
+				// (same root cause) such an announcement is not judged
+				collisions++
+				if tolerateAhead {
+					return
+				}
+			}
+			if msg != "" {
 				t.Fatalf("VPFAIL C14 %s\n  graph %s %v\n  history: %s", msg, shape, edges, s.history())
+			}
+			if msg := vpC14CheckRefreshTol(s, o, at, tolerateAhead); msg != "" {
+				h := s.history()
+				if len(h) > 1800 {
+					h = "..." + h[len(h)-1800:]
+				}
+				t.Fatalf("VPFAIL C14 %s (announcement numbers %d..%d)\n  graph %s %v\n  history: %s", msg, lo+1, hi, shape, edges, h)
 			}
 		},
 		"flapEdge": func(t *rapid.T) {
@@ -116,7 +190,14 @@ func vpC14Run(t *rapid.T, st *vp.Stats, lateConnects bool) {
 	if lateConnects {
 		mode = "connects-any-time"
 	}
-	st.Case(fmt.Sprintf("%s %v %s :: %s", shape, edges, mode, s.history()), announces >= 2 && (relayedAhead || !lateConnects), mode, shape)
+	cls := []string{mode, shape}
+	if collisions > 0 {
+		cls = append(cls, "announcement-number-collided-with-a-replay(not judged for delivery)")
+	}
+	if relayedAhead {
+		cls = append(cls, "replay-relayed-by-a-node-ahead-of-the-origin")
+	}
+	st.Case(fmt.Sprintf("%s %v %s :: %s", shape, edges, mode, s.history()), announces >= 2 && (relayedAhead || !lateConnects), cls...)
 }
 
 func TestVP_C14_Refresh(t *testing.T) {
@@ -124,11 +205,12 @@ func TestVP_C14_Refresh(t *testing.T) {
 	defer st.Flush()
 	excl := vp.Excluded("replay-sequence-ahead")
 	rapid.Check(t, func(t *rapid.T) {
-		vpC14Run(t, st, !excl)
+		// With the finding listed the whole class of histories is still generated; only a
+		// refresh failure carrying the finding's own signature (stored sequence number above
+		// anything the origin ever issued) is tolerated, and counted.
+		vpC14RunTol(t, st, true, excl)
 	})
-	if excl {
-		st.Count("excluded:replay-sequence-ahead(all histories restricted to initial connects)", 1)
-	}
+	st.Count("tolerated:replay-sequence-ahead(stored sequence above the origin's counter)", vpC14Tolerated)
 }
 
 // TestVPKnown_C14_replay replays the saved reproduction: A-B-C chain, B has been up longer
